@@ -119,6 +119,19 @@ class SUrl:
             raise ValueError("URL should be absolute")
         return Origin(self.oid)
 
+    def _has_userinfo(self):
+        if self.userinfo is None:
+            self.userinfo = self.u.choose(2, "url.userinfo") == 1
+        return self.userinfo
+
+    @property
+    def raw_user(self):
+        return "user" if self._has_userinfo() else None
+
+    @property
+    def raw_password(self):
+        return "secret" if self._has_userinfo() else None
+
     def join(self, other):
         stubs.used("yarl URL.join(relative): keeps the base scheme; the origin is the base's unless the reference is a "
                    "network-path reference (//host/...), so it is left arbitrary")
@@ -160,6 +173,12 @@ class Hdrs:
 
     def __setitem__(self, k, v):
         k = self.key(k)
+        if k == AUTH and isinstance(v, stubs.Opaque):
+            # an Authorization value left over from an earlier iteration of the redirect loop: credentials derived for
+            # SOME earlier URL, i.e. for an origin about which nothing is known
+            self.caller[AUTH] = False
+            self.derived, self.derived_oid = True, self.u.int("stale_authorization.origin")
+            return
         assert k == AUTH and isinstance(v, AuthVal), (k, v)
         self.caller[AUTH] = False
         self.derived, self.derived_oid = True, v.oid
